@@ -108,19 +108,26 @@ def lookup_descriptor(S, f, v):
         if key is None and a[2][1][0] == "alloca":
             key = ("load", a[2][1])
         return (a[2][0][1], key)
-    # map style through find(): the iterator lives in a local; find the find() call of the function
-    for i in f.all_insts():
-        if i.op in ("call", "invoke") and i.callee and re.search(r"^std::unordered_map<.*>::find\(", irq.strip_ret(i.callee)):
-            args = [S.value(f, o) for o in i.ops]
-            g = [x for x in args if x[0] == "global"]
-            keys = [x for x in args if x[0] == "alloca"]
-            if g and keys:
-                key = None
-                for k in keys:
-                    fs = S._forward_store(f, None, k, {}, 0, {}, 0)
-                    if fs is not None:
-                        key = fs
-                return (g[0][1], key)
+    # map style through find(): the iterator lives in a local of this function or of an inlined callee
+    ctxs = [(f, S.ctxs.get(0, (f, {}))[1] if S.ctxs.get(0) else {}, 0)]
+    for x in sym.walk(v):
+        if x[0] == "alloca" and x[3] != 0 and S.ctxs.get(x[3]):
+            cf, cb = S.ctxs[x[3]]
+            if all(c[2] != x[3] for c in ctxs):
+                ctxs.append((cf, cb, x[3]))
+    for cf, cb, cid in ctxs:
+        for i in cf.all_insts():
+            if i.op in ("call", "invoke") and i.callee and re.search(r"^std::unordered_map<.*>::find\(", irq.strip_ret(i.callee)):
+                args = [S.value(cf, o, cb, 0, {}, cid) for o in i.ops]
+                g = [x for x in args if x[0] == "global"]
+                keys = [x for x in args if x[0] == "alloca"]
+                if g and keys:
+                    key = None
+                    for k in keys:
+                        fs = S._forward_store(cf, None, k, cb, 0, {}, cid)
+                        if fs is not None:
+                            key = fs
+                    return (g[0][1], key)
     return None
 
 
@@ -140,12 +147,23 @@ def table_kind(g):
     return None
 
 
-def through_checked_hash(f, policy):
-    """every path entry -> ret passes a call of checked_perfect_hash<policy>::hash_type_id"""
+def through_checked_hash(f, policy, mod=None, depth=0, memo=None):
+    """every path entry -> ret passes a call of checked_perfect_hash<policy>::hash_type_id, directly or inside a
+    library function that itself always passes it (e.g. a constructor that delegates to Policy::dynamic_vptr)."""
+    memo = memo if memo is not None else {}
     blocked = set()
     for i in f.all_insts():
-        if i.op in ("call", "invoke") and i.callee and re.search(r"checked_perfect_hash<.*>::hash_type_id\(", i.callee):
-            blocked.add(i.bb)
+        if i.op in ("call", "invoke") and i.callee:
+            if re.search(r"checked_perfect_hash<.*>::hash_type_id\(", i.callee):
+                blocked.add(i.bb)
+            elif mod is not None and depth < 3 and irq.is_lib_name(i.callee):
+                cal = mod.funcs.get(i.get("callee"))
+                if cal is not None and cal.body and cal.name != f.name:
+                    if cal.name not in memo:
+                        memo[cal.name] = False
+                        memo[cal.name] = through_checked_hash(cal, policy, mod, depth + 1, memo)[0]
+                    if memo[cal.name]:
+                        blocked.add(i.bb)
     # a path that avoids every blocked block and reaches ret?
     seen = set()
     work = [f.order[0]]
